@@ -324,6 +324,24 @@ func simRandNext() uint64 {
 		"func internal_sync_nanotime() int64 {\n\tif simRandOn {\n\t\treturn 1 // verification overlay\n\t}\n\treturn nanotime()\n}",
 	}}, "")
 	m[src] = dst
+	// context: a cancelled parent cancels its children by ranging over map[canceler]struct{}, a
+	// pointer-keyed map whose order depends on heap addresses, i.e. on the process. Sibling
+	// sub-requests of one Check were therefore woken in a process-dependent order. Children get a
+	// creation sequence number and are cancelled in that order.
+	src, dst = patch("context/context.go", [][2]string{{
+		"type canceler interface {\n\tcancel(removeFromParent bool, err, cause error)\n\tDone() <-chan struct{}\n}",
+		"type canceler interface {\n\tcancel(removeFromParent bool, err, cause error)\n\tDone() <-chan struct{}\n\tsimOrder() uint64\n}\n\nvar simCtxSeq atomic.Uint64\n\nfunc (c *cancelCtx) simOrder() uint64 { return c.simSeq }",
+	}, {
+		"\tcause    error                 // set to non-nil by the first cancel call\n}",
+		"\tcause    error                 // set to non-nil by the first cancel call\n\tsimSeq   uint64                // verification overlay: creation order\n}",
+	}, {
+		"func (c *cancelCtx) propagateCancel(parent Context, child canceler) {\n\tc.Context = parent\n",
+		"func (c *cancelCtx) propagateCancel(parent Context, child canceler) {\n\tc.Context = parent\n\tc.simSeq = simCtxSeq.Add(1)\n",
+	}, {
+		"\tfor child := range c.children {\n\t\t// NOTE: acquiring the child's lock while holding parent's lock.\n\t\tchild.cancel(false, err, cause)\n\t}",
+		"\tsimKids := make([]canceler, 0, len(c.children))\n\tfor child := range c.children {\n\t\tsimKids = append(simKids, child)\n\t}\n\tfor i := 1; i < len(simKids); i++ {\n\t\tfor j := i; j > 0 && simKids[j].simOrder() < simKids[j-1].simOrder(); j-- {\n\t\t\tsimKids[j], simKids[j-1] = simKids[j-1], simKids[j]\n\t\t}\n\t}\n\tfor _, child := range simKids {\n\t\t// NOTE: acquiring the child's lock while holding parent's lock.\n\t\tchild.cancel(false, err, cause)\n\t}",
+	}}, "")
+	m[src] = dst
 	return m
 }
 
